@@ -1,23 +1,44 @@
 """C01 -- the framed packet stream survives any threshold, cipher and read
-segmentation.  Structural clauses of the framing code on all paths: writer
-frame algebra, reader mirror, remaining-length reads, per-packet mode,
-pass-through cipher wrappers."""
+segmentation.  Structural clauses of the framing code on all paths, decided
+on path summaries: the writer's effects are interpreted over a byte-string
+algebra, the reader's effects are compared with the mirror sequence, every
+request to the stream is shown (by a linear loop invariant) to ask for the
+remaining bytes of the frame, the framing mode is looked up per packet, and
+the cipher wrappers are pass-through."""
 import ast
 
 from ..common import AnalysisError, rel
 from ..callgraph import CallGraph
 from ..connmodel import ConnModel, CONN
-from ..cfg import cfg_of
-from .. import shared, boolfn
+from .. import shared, boolfn, pathsum, reassembly
+from ..pathsum import struct, show, is_const, subterms
 
 PACKET = 'minecraft.networking.packets.packet'
+BUFFER = 'minecraft.networking.packets.packet_buffer'
+BASIC = 'minecraft.networking.types.basic'
 
 
-# -- a tiny byte-string algebra for Packet._write_buffer -------------------
+def sy(n):
+    return ('sym', n)
+
+
+def at(base, *names):
+    for n in names:
+        base = ('attr', base, n)
+    return base
+
+
+# -- a tiny byte-string algebra, interpreted over the writer's effects -------
 class B(object):
     """symbolic byte string: tuple of pieces"""
     def __init__(self, pieces=()):
         self.pieces = tuple(pieces)
+
+    def __eq__(self, o):
+        return isinstance(o, B) and o.pieces == self.pieces
+
+    def __hash__(self):
+        return hash(self.pieces)
 
     def __repr__(self):
         return ' ++ '.join(map(str, self.pieces)) or "b''"
@@ -27,130 +48,133 @@ def piece_varint(x):
     return 'VARINT(%s)' % (x,)
 
 
-class Path(object):
-    def __init__(self):
-        self.env = {}
-        self.buf = B(('PAYLOAD',))      # id + fields, as Packet.write left it
-        self.wire = []
-        self.conds = []
-
-    def fork(self):
-        p = Path()
-        p.env = dict(self.env)
-        p.buf = self.buf
-        p.wire = list(self.wire)
-        p.conds = list(self.conds)
-        return p
-
-
 class FrameAlgebra(object):
-    def __init__(self, fi):
+    """Interprets the ordered effects of one path of _write_buffer: calls on
+    the packet buffer (get_writable / reset / send), VarInt.send into the
+    buffer or onto the socket, compress, socket.send."""
+
+    def __init__(self, fi, path):
         self.fi = fi
-        self.sock = fi.params[1]
-        self.buf = fi.params[2]
-        self.thr = fi.params[3]
+        self.sock = sy(fi.params[1])
+        self.buf = sy(fi.params[2])
+        self.thr = sy(fi.params[3])
+        self.path = path
+        self.cur = B(('PAYLOAD',))      # id + fields, as Packet.write left it
+        self.wire = []
+        self.vals = {}                  # uid of a call result -> value
 
     def err(self, msg, node):
         return AnalysisError('frame algebra: ' + msg, node, rel(self.fi.path))
 
-    def ev(self, e, p):
-        if isinstance(e, ast.Constant):
-            return e.value
-        if isinstance(e, ast.Name):
-            if e.id in p.env:
-                return p.env[e.id]
-            return ('name', e.id)
-        if isinstance(e, ast.Call):
-            f = ast.unparse(e.func)
-            if f == '%s.get_writable' % self.buf and not e.args:
-                return p.buf
-            if f == 'len' and len(e.args) == 1:
-                v = self.ev(e.args[0], p)
-                return 'len(%r)' % (v,)
-            if f in ('compress', 'zlib.compress') and e.args:
-                v = self.ev(e.args[0], p)
-                return B(('ZLIB(%r)' % (v,),))
-            if f == 'bytes' and not e.args:
+    def recv(self, e):
+        if e.fn[0] == 'attr':
+            return e.fn[1]
+        if e.fn[0] == 'fn' and len(e.fn) > 2:
+            return e.fn[2]
+        return None
+
+    def val(self, t, node):
+        if is_const(t):
+            if t[1] in (b'', ''):
                 return B(())
-        raise self.err('unsupported expression %s' % ast.unparse(e), e)
+            return t[1]
+        if t[0] == 'call' and t[4] in self.vals:
+            return self.vals[t[4]]
+        if t[0] == 'unbound':
+            return '<unbound local %s>' % t[1]
+        if t[0] == 'op' and t[1] == 'len' and len(t[2]) == 1:
+            return 'len(%r)' % (self.val(t[2][0], node),)
+        if t[0] == 'op' and t[1] == 'bytes' and not t[2]:
+            return B(())
+        if t[0] == 'op' and t[1] == 'concat':
+            parts = [self.val(x, node) for x in t[2]]
+            if all(isinstance(x, B) for x in parts):
+                return B(sum((x.pieces for x in parts), ()))
+        raise self.err('unsupported value %s' % show(t), node)
 
     def run(self):
-        paths = self.block(self.fi.body, [Path()])
-        return paths
-
-    def block(self, stmts, paths):
-        for st in stmts:
-            nxt = []
-            for p in paths:
-                nxt.extend(self.stmt(st, p))
-            paths = nxt
-        return paths
-
-    def stmt(self, st, p):
-        if isinstance(st, ast.Expr) and isinstance(st.value, ast.Constant):
-            return [p]
-        if isinstance(st, ast.If):
-            a, b = p.fork(), p.fork()
-            a.conds.append((st.test, True))
-            b.conds.append((st.test, False))
-            return self.block(st.body, [a]) + self.block(st.orelse, [b])
-        if isinstance(st, ast.Assign) and len(st.targets) == 1 and \
-                isinstance(st.targets[0], ast.Name):
-            p.env[st.targets[0].id] = self.ev(st.value, p)
-            return [p]
-        if isinstance(st, ast.Expr) and isinstance(st.value, ast.Call):
-            c = st.value
-            f = ast.unparse(c.func)
-            if f == '%s.reset' % self.buf:
-                p.buf = B(())
-                return [p]
-            if f == '%s.send' % self.buf and len(c.args) == 1:
-                v = self.ev(c.args[0], p)
-                if not isinstance(v, B):
-                    raise self.err('buffer.send of a non-bytes value', c)
-                p.buf = B(p.buf.pieces + v.pieces)
-                return [p]
-            if f == 'VarInt.send' and len(c.args) == 2:
-                n = self.ev(c.args[0], p)
-                tgt = ast.unparse(c.args[1])
+        for e in self.path.flat(('call', 'loop')):
+            if e.kind == 'loop':
+                raise self.err('loop in the frame writer', e.node)
+            r = self.recv(e)
+            m = e.method()
+            if r is not None and struct(r) == self.buf:
+                if m == 'get_writable':
+                    self.vals[e.res[4]] = self.cur
+                elif m == 'reset':
+                    self.cur = B(())
+                elif m == 'send' and len(e.args) >= 1:
+                    v = self.val(e.args[-1], e.node)
+                    if not isinstance(v, B):
+                        raise self.err('buffer.send of a non-bytes value',
+                                       e.node)
+                    self.cur = B(self.cur.pieces + v.pieces)
+                elif m in ('reset_cursor',):
+                    pass
+                else:
+                    raise self.err('unsupported buffer operation %s' % m,
+                                   e.node)
+                continue
+            if r is not None and struct(r) == self.sock:
+                if m in ('send', 'sendall') and e.args:
+                    v = self.val(e.args[-1], e.node)
+                    if not isinstance(v, B):
+                        raise self.err('socket.send of a non-bytes value',
+                                       e.node)
+                    self.wire.append(v)
+                    continue
+                raise self.err('unsupported socket operation %s' % m, e.node)
+            if m == 'send' and any(t.cls is not None
+                                   and t.cls.name == 'VarInt'
+                                   for t in (e.targets or ())) or (
+                    e.fn[0] == 'attr' and e.fn[2] == 'send'
+                    and e.fn[1][0] == 'cls' and e.fn[1][1].name == 'VarInt'):
+                args = [a for a in e.args if not (a[0] == 'cls')]
+                if len(args) != 2:
+                    raise self.err('VarInt.send call shape', e.node)
+                n = self.val(args[0], e.node)
+                tgt = struct(args[1])
                 if tgt == self.buf:
-                    p.buf = B(p.buf.pieces + (piece_varint(n),))
-                    return [p]
-                if tgt == self.sock:
-                    p.wire.append(piece_varint(n))
-                    return [p]
-            if f in ('%s.send' % self.sock, '%s.sendall' % self.sock) and \
-                    len(c.args) == 1:
-                v = self.ev(c.args[0], p)
-                if not isinstance(v, B):
-                    raise self.err('socket.send of a non-bytes value', c)
-                p.wire.append(v)
-                return [p]
-        raise self.err('unsupported statement %s' % ast.unparse(st)[:60], st)
+                    self.cur = B(self.cur.pieces + (piece_varint(n),))
+                elif tgt == self.sock:
+                    self.wire.append(piece_varint(n))
+                else:
+                    raise self.err('VarInt.send to %s' % show(args[1]),
+                                   e.node)
+                continue
+            if e.fn[0] == 'ext' and e.fn[1] in ('zlib.compress',) and e.args:
+                v = self.val(e.args[0], e.node)
+                self.vals[e.res[4]] = B(('ZLIB(%r)' % (v,),))
+                continue
+            raise self.err('unsupported effect %r' % e, e.node)
+        return self
 
 
 def run(report, db, tier):
     report.explanation = (
-        'Packet._write_buffer is executed over a symbolic byte-string '
-        'algebra on each of its paths and the emitted frame compared with '
-        'the frame grammar; read_packet is checked to mirror it (inflate '
-        'iff the announced size is > 0, size check, rewind), to ask the '
-        'stream only for the remaining length, and to look the framing '
-        'mode up per packet.')
+        'The ordered effects of every path of Packet._write_buffer are '
+        'interpreted over a symbolic byte-string algebra and the emitted '
+        'frame compared with the frame grammar; the paths of read_packet '
+        'are checked to mirror it (inflate iff the announced size is > 0, '
+        'size check, rewind), every request to the stream is shown to ask '
+        'for exactly the remaining bytes of the frame (linear loop '
+        'invariant over the bytes appended), and the framing mode is looked '
+        'up per packet.')
     report.trusted_base = ['zlib compress/decompress are inverse',
                            'VarInt codec (C03)']
     cg = CallGraph(db)
     M = ConnModel(db, cg)
-    writer(report, db, cg, M)
-    reader(report, db, cg, M)
-    isolation(report, db, cg, M)
+    S = shared.summariser(db, cg)
+    writer(report, db, S, M)
+    reader(report, db, S, M)
+    isolation(report, db, cg, S, M)
     mode(report, db, cg, M)
     R5 = report.rule('R01.5', 'cipher transparency: wrapper methods are '
                      'single pass-through updates')
     shared.wrapper_passthrough(report, R5, db)
 
 
-def writer(report, db, cg, M):
+def writer(report, db, S, M):
     R = report.rule('R01.1', 'writer: frame = VARINT(len(body)) ++ body on '
                     'every path; body = payload | VARINT(0) ++ payload | '
                     'VARINT(len(payload)) ++ ZLIB(payload)')
@@ -159,312 +183,322 @@ def writer(report, db, cg, M):
     if wb is None or len(wb.params) != 4:
         raise AnalysisError('Packet._write_buffer(self, socket, buffer, '
                             'threshold) vanished')
-    paths = FrameAlgebra(wb).run()
+    paths = [p for p in S.run(wb) if p.returns]
     report.floor('paths of _write_buffer', len(paths), 3)
     payload = "PAYLOAD"
+    thr = sy(wb.params[3])
     kinds = set()
     for p in paths:
-        cond = ' and '.join(('' if t else 'not ') + '(%s)' % ast.unparse(e)
-                            for e, t in p.conds) or 'always'
-        if len(p.wire) != 2 or not isinstance(p.wire[1], B):
+        fa = FrameAlgebra(wb, p).run()
+        cond = p.cond_text()
+        if len(fa.wire) != 2 or not isinstance(fa.wire[1], B):
             report.violation(R, 'frame:shape:%s' % cond[:40], wb.path,
                              wb.node, wb.qualname, 'when %s the frame is '
                              '%r: not a length prefix followed by one body'
-                             % (cond, p.wire))
+                             % (cond, fa.wire))
             continue
-        body = p.wire[1]
+        body = fa.wire[1]
         want_prefix = piece_varint('len(%r)' % (body,))
-        if p.wire[0] != want_prefix:
+        if fa.wire[0] != want_prefix:
             report.violation(R, 'frame:length:%s' % cond[:40], wb.path,
                              wb.node, wb.qualname, 'when %s the length '
                              'prefix is %s but the body sent is %r'
-                             % (cond, p.wire[0], body))
+                             % (cond, fa.wire[0], body))
             continue
         bp = body.pieces
-        none_test = any(('%s is not None' % wb.params[3]) in ast.unparse(e)
-                        or ('%s is None' % wb.params[3]) in ast.unparse(e)
-                        for e, t in p.conds)
+        plain = False
         if bp == (payload,):
             kinds.add('plain')
-            report.ok(R, '%s: %r' % (cond, p.wire))
+            plain = True
+            report.ok(R, '%s: %r' % (cond, fa.wire))
         elif bp == (piece_varint(0), payload):
             kinds.add('stored')
-            report.ok(R, '%s: %r' % (cond, p.wire))
+            report.ok(R, '%s: %r' % (cond, fa.wire))
         elif bp == (piece_varint('len(%r)' % (B((payload,)),)),
                     'ZLIB(%r)' % (B((payload,)),)):
             kinds.add('deflated')
-            report.ok(R, '%s: %r' % (cond, p.wire))
+            report.ok(R, '%s: %r' % (cond, fa.wire))
         else:
             report.violation(R, 'frame:body:%s' % cond[:40], wb.path,
                              wb.node, wb.qualname, 'when %s the body is %r; '
                              'the frame grammar allows payload, VARINT(0) ++ '
                              'payload, or VARINT(len(payload)) ++ '
                              'ZLIB(payload)' % (cond, body))
+            continue
+        # the plain form iff threshold is None (compression not negotiated)
+        thr_none = None
+        for a, pol, _ in p.conds:
+            if a[1] == 'is' and struct(a[2][0]) == thr and \
+                    a[2][1] == ('const', None):
+                thr_none = pol
+        if thr_none is not None and plain != thr_none:
+            report.violation(R, 'frame:mode', wb.path, wb.node,
+                             wb.qualname, 'with compression %s the '
+                             'frame %s a data-length header'
+                             % ('off' if thr_none else 'on',
+                                'has' if not plain else 'lacks'))
     if kinds == {'plain', 'stored', 'deflated'}:
         report.ok(R, 'all three frame forms are produced')
     elif not report.violations:
         report.violation(R, 'frame:forms', wb.path, wb.node, wb.qualname,
                          'only the forms %s are produced' % sorted(kinds))
-    # the plain form iff threshold is None (compression not negotiated)
-    for p in paths:
-        if len(p.wire) == 2 and isinstance(p.wire[1], B):
-            plain = p.wire[1].pieces == (payload,)
-            thr_none = None
-            for e, t in p.conds:
-                u = ast.unparse(e)
-                if u == '%s is not None' % wb.params[3]:
-                    thr_none = not t
-                elif u == '%s is None' % wb.params[3]:
-                    thr_none = t
-            if thr_none is not None and plain != thr_none:
-                report.violation(R, 'frame:mode', wb.path, wb.node,
-                                 wb.qualname, 'with compression %s the '
-                                 'frame %s a data-length header'
-                                 % ('off' if thr_none else 'on',
-                                    'has' if not plain else 'lacks'))
     # _write_packet passes the threshold iff compression is enabled
     wp = M.conn_method('_write_packet')
-    g = cfg_of(wp)
-    for n in g.reachable_nodes():
-        for c in (n.calls() if n.ast is not None else []):
-            if isinstance(c.func, ast.Attribute) and c.func.attr == 'write' \
-                    and any(m.name == 'write' and m.cls is pk
-                            for m, _, _ in cg.callee_funcs(wp, c)):
-                conds = [(ast.unparse(e), t) for e, t in
-                         boolfn.path_conditions(g, n)
-                         if 'compression_enabled' in ast.unparse(e)]
-                has_thr = len(c.args) > 1 or any(
-                    k.arg == 'compression_threshold' for k in c.keywords)
-                enabled = [t for e, t in conds]
-                if enabled == [has_thr]:
-                    if has_thr:
-                        a = c.args[1] if len(c.args) > 1 else [
-                            k.value for k in c.keywords
-                            if k.arg == 'compression_threshold'][0]
-                        if not ast.unparse(a).endswith(
-                                '.compression_threshold'):
-                            report.violation(
-                                R, 'frame:threshold-source', wp.path, c,
-                                wp.qualname, 'the threshold passed is %s, '
-                                'not options.compression_threshold'
-                                % ast.unparse(a))
-                            continue
-                    report.ok(R, '_write_packet: threshold passed iff '
-                              'compression_enabled (%s)' % has_thr)
-                else:
-                    report.violation(R, 'frame:enable-mismatch', wp.path, c,
-                                     wp.qualname, 'packet.write gets a '
-                                     'threshold: %s under '
-                                     'compression_enabled = %s'
-                                     % (has_thr, enabled))
+    me = sy(wp.params[0])
+    write = db.find_method(pk, 'write')
+    enabled_at = at(me, 'options', 'compression_enabled')
+    nw = 0
+    for p in S.run(wp):
+        for e in p.flat(('call',)):
+            if not e.calls(write):
+                continue
+            nw += 1
+            names = write.params[1:]
+            args = [a for a in e.args]
+            if len(args) == len(write.params):
+                args = args[1:]
+            bound = dict(zip(names, args))
+            bound.update(dict(e.kwargs))
+            has_thr = 'compression_threshold' in bound
+            enabled = [pol for a, pol, _ in p.conds_at(e)
+                       if a[1] == 'truth' and struct(a[2][0]) == enabled_at]
+            if enabled != [has_thr]:
+                report.violation(R, 'frame:enable-mismatch', wp.path, e.node,
+                                 wp.qualname, 'packet.write gets a '
+                                 'threshold: %s under compression_enabled = '
+                                 '%s' % (has_thr, enabled))
+                continue
+            if has_thr and struct(bound['compression_threshold']) != at(
+                    me, 'options', 'compression_threshold'):
+                report.violation(R, 'frame:threshold-source', wp.path,
+                                 e.node, wp.qualname, 'the threshold passed '
+                                 'is %s, not options.compression_threshold'
+                                 % show(bound['compression_threshold']))
+                continue
+            report.ok(R, '_write_packet: threshold passed iff '
+                      'compression_enabled (%s)' % has_thr)
+    if not nw:
+        raise AnalysisError('_write_packet never calls Packet.write',
+                            wp.node, rel(wp.path))
 
 
-def reader(report, db, cg, M):
+def reader(report, db, S, M):
     R = report.rule('R01.2', 'reader mirror: under compression read the '
                     'data length, inflate iff it is > 0, check the size, '
                     'replace the buffer and rewind; then read the id')
     rp = M.method(M.reactor, 'read_packet')
-    g = cfg_of(rp)
-    live = g.reachable_nodes()
-    tests = [n for n in live if n.kind == 'test']
-    comp = [n for n in tests if 'compression_enabled' in ast.unparse(n.ast)]
-    if len(comp) != 1:
-        report.violation(R, 'reader:mode-test', rp.path, rp.node,
-                         rp.qualname, 'expected one test of '
-                         'compression_enabled, found %d' % len(comp))
-        return
-    ct = comp[0]
-    # data length read from the frame buffer, under the flag
-    dl = [n for n in live if isinstance(n.ast, ast.Assign)
-          and isinstance(n.ast.value, ast.Call)
-          and ast.unparse(n.ast.value.func) == 'VarInt.read'
-          and g.dominates(ct, n)
-          and any(l == 'true' for s, l in ct.succ)
-          and [(ast.unparse(e), t) for e, t in boolfn.path_conditions(g, n)
-               if 'compression_enabled' in ast.unparse(e)] ==
-          [(ast.unparse(ct.ast), True)]]
-    ids = [n for n in live if isinstance(n.ast, ast.Assign)
-           and isinstance(n.ast.value, ast.Call)
-           and ast.unparse(n.ast.value.func) == 'VarInt.read'
-           and n not in dl and 'stream' not in ast.unparse(n.ast.value)]
-    if len(dl) != 1:
-        report.violation(R, 'reader:data-length', rp.path, ct.ast,
-                         rp.qualname, 'under compression the data-length '
-                         'VarInt is not read exactly once from the frame')
-        return
-    dvar = dl[0].ast.targets[0].id
-    bufname = ast.unparse(dl[0].ast.value.args[0])
-    zt = [n for n in tests if dvar in ast.unparse(n.ast)
-          and g.dominates(dl[0], n)]
-    if len(zt) != 1:
-        report.violation(R, 'reader:marker-test', rp.path, dl[0].ast,
-                         rp.qualname, 'the data length is not tested '
-                         'against 0 exactly once')
-        return
-    z = zt[0]
-    ref = ast.parse('%s > 0' % dvar, mode='eval').body
-    ref2 = ast.parse('%s != 0' % dvar, mode='eval').body
-    t = z.ast
-    marker_ok = isinstance(t, ast.Compare) and len(t.ops) == 1 and \
-        ast.unparse(t.left) == dvar and isinstance(t.comparators[0],
-                                                   ast.Constant) and \
-        t.comparators[0].value == 0 and isinstance(t.ops[0], (ast.Gt,
-                                                               ast.NotEq))
-    if isinstance(t, ast.Name) and t.id == dvar:
-        marker_ok = True
-    if marker_ok:
-        report.ok(R, 'inflate iff %s' % ast.unparse(t))
-    else:
-        report.violation(R, 'reader:marker', rp.path, z.ast, rp.qualname,
-                         'the body is inflated when [%s]; the writer marks '
-                         'an uncompressed body with data length 0, so it '
-                         'must be inflated exactly when the length is > 0'
-                         % ast.unparse(t))
-    # inside the inflate arm: decompress(rest), size check, reset, send,
-    # reset_cursor -- in this order
-    arm = []
-    seen = set()
-    stack = [s for s, l in z.succ if l == 'true']
-    while stack:
-        n = stack.pop()
-        if n in seen or n.ast is None:
+    me, stream = sy(rp.params[0]), sy(rp.params[1])
+    pb = db.get_class(BUFFER, 'PacketBuffer')
+    enabled_at = at(me, 'connection', 'options', 'compression_enabled')
+    prob = {}
+    modes = set()
+    for p in S.run(rp):
+        if not p.returns or p.value == ('const', None):
             continue
-        seen.add(n)
-        if g.dominates(z, n) and [c for c in boolfn.path_conditions(g, n)
-                                  if c == (z.ast, True)]:
-            arm.append(n)
-            stack.extend(s for s, l in n.succ if l != 'exc')
-    arm.sort(key=lambda n: n.id)
-    steps = []
-    infl = None
-    for n in arm:
-        u = ast.unparse(n.ast)
-        if 'decompress' in u and isinstance(n.ast, ast.Assign) and \
-                '.decompress(' in u:
-            src = [c for c in n.calls() if isinstance(c.func, ast.Attribute)
-                   and c.func.attr == 'decompress']
-            if src and src[0].args and ast.unparse(src[0].args[0]) == \
-                    '%s.read()' % bufname:
-                steps.append('inflate')
-                infl = n.ast.targets[0].id
-            else:
-                steps.append('inflate-other')
-        elif isinstance(n.ast, (ast.Assert,)) or n.kind == 'test':
-            if infl and 'len(%s)' % infl in u and dvar in u:
-                steps.append('size-check')
-        elif u == '%s.reset()' % bufname:
-            steps.append('reset')
-        elif infl and u == '%s.send(%s)' % (bufname, infl):
-            steps.append('refill')
-        elif u == '%s.reset_cursor()' % bufname:
-            steps.append('rewind')
-    want = ['inflate', 'size-check', 'reset', 'refill', 'rewind']
-    core = [s for s in steps if s in want]
-    if core == want:
-        report.ok(R, 'inflate arm: ' + ' -> '.join(core))
-    else:
-        missing = [w for w in want if w not in core]
-        report.violation(R, 'reader:inflate-arm', rp.path, z.ast,
-                         rp.qualname, 'the inflate arm does %s; expected %s'
-                         '%s' % (core, want, (' (missing: %s)' % missing)
-                                 if missing else ' in this order'))
-    # the id is read from the same buffer after the arm
-    if len(ids) == 1 and ast.unparse(ids[0].ast.value.args[0]) == bufname \
-            and not g.exists_path(ids[0], lambda n: n is dl[0]):
+        evs = p.flat(('call',))
+        top = [e for e in evs if not e.loops]
+
+        def recv(e):
+            return e.fn[1] if e.fn[0] == 'attr' else (
+                e.fn[2] if e.fn[0] == 'fn' and len(e.fn) > 2 else None)
+        bufs = set(recv(e) for e in top if recv(e) is not None
+                   and recv(e)[0] == 'obj' and recv(e)[3] is pb)
+        if len(bufs) != 1:
+            raise AnalysisError('read_packet: expected one frame buffer per '
+                                'path, found %d' % len(bufs), rp.node,
+                                rel(rp.path))
+        buf = bufs.pop()
+        vreads = [e for e in top if e.method() == 'read' and any(
+            t.cls is not None and t.cls.name == 'VarInt'
+            for t in (e.targets or ())) and e.args and e.args[-1] == buf]
+        comp = [pol for a, pol, _ in p.conds if a[1] == 'truth'
+                and struct(a[2][0]) == enabled_at]
+        if len(comp) != 1:
+            prob['reader:mode-test'] = (
+                rp.node, 'expected one decision on compression_enabled per '
+                'path, found %d [%s]' % (len(comp), p.cond_text()))
+            continue
+        modes.add(comp[0])
+        if not comp[0]:
+            if len(vreads) != 1:
+                prob['reader:id'] = (
+                    rp.node, 'without compression the packet id is not the '
+                    'only VarInt read from the frame buffer (%d reads)'
+                    % len(vreads))
+            continue
+        if len(vreads) != 2:
+            prob['reader:data-length'] = (
+                rp.node, 'under compression the data-length VarInt is not '
+                'read exactly once from the frame before the id (%d VarInt '
+                'reads from the frame buffer)' % len(vreads))
+            continue
+        dl, idr = vreads
+        D = dl.res
+        marker = None
+        for a, pol, _ in p.conds:
+            if a[1] == '<' and a[2] == (('const', 0), D):
+                marker = ('gt', pol)
+            elif a[1] == '<=' and a[2] == (D, ('const', 0)):
+                marker = ('gt', not pol)
+            elif a[1] == '<' and a[2] == (D, ('const', 1)):
+                marker = ('gt', not pol)
+            elif a[1] == '<=' and a[2] == (('const', 1), D):
+                marker = ('gt', pol)
+            elif a[1] == '==' and set(a[2]) == {('const', 0), D}:
+                marker = ('gt', not pol)
+            elif a[1] == 'truth' and a[2][0] == D:
+                marker = ('gt', pol)
+            elif a[1] in ('<', '<=') and D in a[2] and marker is None:
+                marker = ('other', show(a) if pol else 'not ' + show(a))
+        infl = [e for e in top if e.method() == 'decompress']
+        if marker is None:
+            prob['reader:marker-test'] = (
+                dl.node, 'the data length is not tested against 0')
+            continue
+        if marker[0] != 'gt':
+            prob['reader:marker'] = (
+                dl.node, 'the body is inflated when [%s]; the writer marks '
+                'an uncompressed body with data length 0, so it must be '
+                'inflated exactly when the length is > 0' % marker[1])
+            continue
+        if bool(infl) != marker[1]:
+            prob['reader:marker'] = (
+                dl.node, 'the body is %sinflated although the data length '
+                'is %s 0' % ('' if infl else 'not ',
+                             '>' if marker[1] else '='))
+            continue
+        i_dl, i_id = top.index(dl), top.index(idr)
+        if marker[1]:
+            x = infl[0]
+            steps = []
+            src_ok = x.args and x.args[-1][0] == 'call' and \
+                x.args[-1][1][0] in ('attr', 'fn') and any(
+                    e.res == x.args[-1] and e.method() == 'read'
+                    and recv(e) == buf for e in top)
+            seq = top[i_dl + 1:i_id]
+            for e in seq:
+                if e is x:
+                    steps.append('inflate' if src_ok else 'inflate-other')
+                elif recv(e) == buf and e.method() == 'reset':
+                    steps.append('reset')
+                elif recv(e) == buf and e.method() == 'send' and \
+                        e.args and e.args[-1] == x.res:
+                    steps.append('refill')
+                elif recv(e) == buf and e.method() == 'reset_cursor':
+                    steps.append('rewind')
+            size = False
+            for a, pol, _ in p.conds:
+                if a[1] == '==' and pol and D in a[2] and any(
+                        t == ('op', 'len', (x.res,)) for t in a[2]):
+                    size = True
+            if size and 'inflate' in steps:
+                steps.insert(steps.index('inflate') + 1, 'size-check')
+            want = ['inflate', 'size-check', 'reset', 'refill', 'rewind']
+            core = [s_ for s_ in steps if s_ in want]
+            if core != want:
+                missing = [w for w in want if w not in core]
+                prob['reader:inflate-arm'] = (
+                    x.node, 'the inflate arm does %s; expected %s%s' % (
+                        core, want, (' (missing: %s)' % missing)
+                        if missing else ' in this order'))
+    if modes != {True, False} and not prob:
+        prob['reader:mode-test'] = (
+            rp.node, 'the reader does not distinguish compression on/off')
+    for key, (node, msg) in sorted(prob.items()):
+        report.violation(R, key, rp.path, node, rp.qualname, msg)
+    if not prob:
+        report.ok(R, 'under compression: data length read once, inflate iff '
+                  '> 0')
+        report.ok(R, 'inflate arm: inflate -> size-check -> reset -> refill '
+                  '-> rewind')
         report.ok(R, 'packet id read from the frame buffer after the '
                   'compression stage')
-    else:
-        report.violation(R, 'reader:id', rp.path, rp.node, rp.qualname,
-                         'the packet id is not read once from the frame '
-                         'buffer after the compression stage')
 
 
-def isolation(report, db, cg, M):
+def isolation(report, db, cg, S, M):
     R = report.rule('R01.3', 'frame isolation: the stream is only asked '
                     'for the length prefix and for the remaining bytes of '
                     'this frame; decoding uses the per-frame buffer')
+    from .c15 import raw_reads
     rp = M.method(M.reactor, 'read_packet')
-    stream = rp.params[1]
-    g = cfg_of(rp)
-    uses = []
-    for n in g.reachable_nodes():
-        for c in (n.calls() if n.ast is not None else []):
-            if any(isinstance(x, ast.Name) and x.id == stream
-                   for a in c.args for x in ast.walk(a)) and not any(
-                       isinstance(a, ast.Call) for a in c.args
-                       if any(isinstance(x, ast.Name) and x.id == stream
-                              for x in ast.walk(a))):
-                uses.append(('arg', c, n))
-            if isinstance(c.func, ast.Attribute) and isinstance(
-                    c.func.value, ast.Name) and c.func.value.id == stream:
-                uses.append(('method', c, n))
-    lname = None
-    bufs = []
-    for n in g.reachable_nodes():
-        if isinstance(n.ast, ast.Assign) and isinstance(
-                n.ast.targets[0], ast.Name):
-            v = ast.unparse(n.ast.value)
-            if v == 'VarInt.read(%s)' % stream:
-                lname = n.ast.targets[0].id
-            if v.endswith('PacketBuffer()'):
-                bufs.append(n.ast.targets[0].id)
-    if lname is None or len(bufs) != 1:
+    stream = sy(rp.params[1])
+    pb = db.get_class(BUFFER, 'PacketBuffer')
+    type_ci = db.get_class(BASIC, 'Type')
+    packet_ci = db.get_class(PACKET, 'Packet')
+    raw = set()
+    for f in db.funcs:
+        if f.module is rp.module:
+            raw |= set(id(n) for n in raw_reads(db, cg, f, type_ci,
+                                                packet_ci))
+    res = reassembly.analyse(S, rp, raw, pb)
+    if res['L'] is None:
         raise AnalysisError('read_packet: length prefix / frame buffer not '
                             'found', rp.node, rel(rp.path))
-    buf = bufs[0]
-    first_seen = False
-    for kind, c, n in uses:
-        u = ast.unparse(c)
-        if kind == 'arg':
-            if u == 'VarInt.read(%s)' % stream or \
-                    ast.unparse(c.func).endswith('select'):
-                report.ok(R, u[:50])
-            else:
-                report.violation(R, 'isolation:stream-arg', rp.path, c,
-                                 rp.qualname, 'the stream itself is handed '
-                                 'to %s: a decoder could read past the end '
-                                 'of the frame' % ast.unparse(c.func))
-        else:
-            if c.func.attr not in ('read',):
-                report.violation(R, 'isolation:stream-method', rp.path, c,
-                                 rp.qualname, 'unexpected stream.%s()'
-                                 % c.func.attr)
-                continue
-            a = ast.unparse(c.args[0]) if c.args else None
-            remaining = '%s - len(%s.get_writable())' % (lname, buf)
-            in_loop = bool(n.loops)
-            rem_ok = a == remaining
-            if c.args and isinstance(c.args[0], ast.BinOp) and isinstance(
-                    c.args[0].op, ast.Sub) and \
-                    ast.unparse(c.args[0].left) == lname and \
-                    ast.unparse(c.args[0].right) in \
-                    shared.received_length_exprs(rp, buf):
-                rem_ok = True
-            if rem_ok or (a == lname and not in_loop
-                          and not first_seen):
-                report.ok(R, 'stream.read(%s)' % a)
-                if a == lname:
-                    first_seen = True
-            else:
-                report.violation(R, 'isolation:read-size', rp.path, c,
-                                 rp.qualname, 'the stream is asked for %s '
-                                 'bytes; only the remaining %s may be '
-                                 'requested, or bytes of the next frame are '
-                                 'consumed' % (a, remaining))
-    # the decoder gets the per-frame buffer
-    dec = [c for n in g.reachable_nodes() if n.ast is not None
-           for c in n.calls() if isinstance(c.func, ast.Attribute)
-           and c.func.attr == 'read' and any(
-               m.name == 'read' and m.cls is not None
-               and m.cls.name == 'Packet'
-               for m, _, _ in cg.callee_funcs(rp, c))]
-    if dec and all([ast.unparse(a) for a in c.args] == [buf] for c in dec):
-        report.ok(R, 'packet.read(%s)' % buf)
+    for key, node, text in res['problems']:
+        if key in ('request-size',):
+            report.violation(R, 'isolation:read-size', rp.path, node,
+                             rp.qualname, text)
+    if not any(k == 'request-size' for k, _, _ in res['problems']):
+        report.ok(R, 'every stream.read asks for L - (bytes appended) '
+                  '(%d requests; %s)' % (res['requests'], '; '.join(
+                      sorted(set(res['facts']))[:2])))
+    # other uses of the stream; the decoder's input
+    uses = 0
+    bad = {}
+    dec_ok = None
+    for p in S.run(rp):
+        for e in p.flat(('call',)):
+            def direct(t):
+                # the stream itself (possibly inside a literal), not a
+                # value read from it
+                if struct(t) == stream:
+                    return True
+                if t[0] in ('tuple', 'list', 'set'):
+                    return any(direct(x) for x in t[1])
+                return False
+            r0 = e.fn[1] if e.fn[0] == 'attr' else (
+                e.fn[2] if e.fn[0] == 'fn' and len(e.fn) > 2 else None)
+            mentions = (r0 is not None and direct(r0)) or any(
+                direct(a) for a in tuple(e.args) + tuple(
+                    v for _, v in e.kwargs))
+            if mentions:
+                uses += 1
+                recv = e.fn[1] if e.fn[0] == 'attr' else (
+                    e.fn[2] if e.fn[0] == 'fn' and len(e.fn) > 2 else None)
+                if recv is not None and struct(recv) == stream:
+                    if e.method() != 'read':
+                        bad['isolation:stream-method'] = (
+                            e.node, 'unexpected stream.%s()' % e.method())
+                elif e.fn == ('ext', 'select.select'):
+                    pass
+                elif e.method() == 'read' and any(
+                        t.cls is not None and t.cls.name == 'VarInt'
+                        for t in (e.targets or ())) and e.res == res['L'] \
+                        or struct(e.res) == struct(res['L']):
+                    pass
+                else:
+                    bad['isolation:stream-arg'] = (
+                        e.node, 'the stream itself is handed to %s: a '
+                        'decoder could read past the end of the frame'
+                        % show(e.fn))
+            if e.method() == 'read' and any(
+                    t.name == 'read' and t.cls is not None
+                    and t.cls.name == 'Packet' for t in (e.targets or ())):
+                a = [x for x in e.args if not (x == e.fn[1] if e.fn[0]
+                                               == 'attr' else False)]
+                src = a[-1] if a else None
+                good = src is not None and src[0] == 'obj' and \
+                    src[3] is pb
+                dec_ok = good if dec_ok is None else (dec_ok and good)
+    for key, (node, msg) in sorted(bad.items()):
+        report.violation(R, key, rp.path, node, rp.qualname, msg)
+    if dec_ok:
+        report.ok(R, 'packet.read(frame buffer)')
     else:
         report.violation(R, 'isolation:decoder-input', rp.path, rp.node,
                          rp.qualname, 'the packet decoder is not fed the '
                          'per-frame buffer')
-    report.floor('uses of the stream in read_packet', len(uses), 4)
+    report.floor('uses of the stream in read_packet', uses, 4)
 
 
 def mode(report, db, cg, M):
